@@ -127,8 +127,16 @@ def run_forms(ctx, p):
     forms = gen.FORMS if is_base(e) else ['list', 'tuple', 'array']
     outcomes = {}
     for form in forms:
-        a1, k1 = setpos(args, kwargs, pos, gen.as_form(v, form))
+        given = gen.as_form(v, form)
+        a1, k1 = setpos(args, kwargs, pos, given)
         outcomes[form] = attempt(e, a1, k1, recv_of(p))
+        if form == 'array' and outcomes[form][0] == 'ok' and 'random' not in e['tags']:
+            # the same array object handed in a second time must be answered identically (forms are interchangeable only if
+            # the call leaves the caller's container as it found it)
+            again = attempt(e, a1, k1, recv_of(p))
+            ctx.judge('forms', again[0] == 'ok' and same(again[1], outcomes[form][1]), dict(api=e['name'], pos=str(pos), form=form, kind='second_call_with_same_array_differs'),
+                      lambda: '%s: argument %s given as the same 1-D array twice: first %s, then %s' % (
+                          e['name'], pos, core.short(getattr(outcomes[form][1], 'data', outcomes[form][1]), 200), core.short(getattr(again[1], 'data', again[1]), 200)))
     if base_res[0] == 'exc' and all(o[0] == 'exc' for o in outcomes.values()):
         ctx.ood('forms')
         ctx.cell('all_forms_raise', e['name'], type(base_res[1]).__name__)
